@@ -27,6 +27,10 @@ type Plan struct {
 	// race it reported inside a long batch may need a particular shift to be
 	// reported again by a fresh process; the other oracles ignore it.
 	Jitter int `json:"jitter,omitempty"`
+	// environment seams: simulated clock, CPU count, package-level randomness
+	TickNs     int64   `json:"tick_ns,omitempty"`
+	ClockJumps []int64 `json:"clock_jumps,omitempty"`
+	NumCPU     int     `json:"ncpu,omitempty"`
 }
 
 // Cell sharing modes.
@@ -127,7 +131,8 @@ func (p *Plan) simConfig(trace bool) rt.Config {
 	for i, d := range p.PoolDec {
 		pd[i] = uint8(d)
 	}
-	return rt.Config{Sched: p.Sched, PreSched: p.PreSched, PoolDec: pd, Preempt: p.Preempt, MaxPoints: p.MaxPoints, Trace: trace}
+	return rt.Config{Sched: p.Sched, PreSched: p.PreSched, PoolDec: pd, Preempt: p.Preempt, MaxPoints: p.MaxPoints, Trace: trace,
+		TickNs: p.TickNs, ClockJumps: p.ClockJumps, NumCPU: p.NumCPU, RandSeed: p.Seed | 1}
 }
 
 func (p *Plan) nOps() int {
